@@ -76,7 +76,7 @@ func c20dReplay(c json.RawMessage) Verdict {
 				}
 			} else {
 				what = fmt.Sprintf("garbage inserted at byte %d", at)
-				pieces = append(pieces, []byte(d.text[prev:at]+"< <"+d.text[at:]))
+				pieces = append(pieces, []byte(d.text[prev:at]+uniGarbage+d.text[at:]))
 			}
 		}
 		g := &gateReader{asked: make(chan struct{}, 4), permit: make(chan struct{}, len(pieces)+8)}
